@@ -29,9 +29,9 @@ Section Spec.
     | NFlt f => MFlt f
     | NLit t => match int_text t with
                 | Some z => MInt z
-                | None => match parse_float t with
+                | None => match (if has_dot_or_exp t then parse_float t else None) with
                           | Some f => MFlt f
-                          | None => MFlt (finf (match t with 45%N :: _ => true | _ => false end))
+                          | None => MFlt (finf (starts_minus t))
                           end
                 end
     end.
@@ -175,7 +175,7 @@ Section Spec.
                  match y with
                  | [] => acc
                  | (k, w) :: y' =>
-                     go y' (mset acc k (match mget x k, w with
+                     go y' (mset acc k (match mget acc k, w with
                                         | Some (MObj xk), MObj _ => s_merge xk w
                                         | _, _ => w
                                         end))
@@ -188,7 +188,7 @@ Section Spec.
     let f := dbl n in
     if fis_nan f || flt f (fzero false) then SVal MNull
     else let c := if fle (Z2F 2147483647) f then 2147483647 else ftrunc f in
-         if 2147483647 <=? mlen s * c then SErr
+         if 2147483647 <=? (mlen s * c) mod 2 ^ 64 then SErr   (* the size is computed in uint64, as Go does *)
          else SVal (MStr (match s, c with [], _ => [] | _, Zpos p => Pos.iter (fun acc => acc ++ s) [] p | _, _ => [] end)).
   Definition s_mul (a b : mv) : sres :=
     match a, b with
